@@ -111,6 +111,7 @@ void Alarm::cleanup() {
   timezone_offset_seconds_ = 0;
   state_ = State::kNone;
   target_utc_sec_ = 0;
+  fired_utc_sec_ = 0;
 }
 
 void Alarm::refresh() {
@@ -118,6 +119,7 @@ void Alarm::refresh() {
     state_ = State::kInited;
     sp_timer_ev_->disable();
     target_utc_sec_ = 0;    //! 如果不清0，那么每refresh()一次都会往后延一天
+    fired_utc_sec_ = 0;
     activeTimer();
   }
 }
@@ -179,15 +181,17 @@ bool Alarm::activeTimer() {
   int timezone_offset_seconds = using_independ_timezone_ ? \
                                 timezone_offset_seconds_ : GetSystemTimezoneOffsetSeconds();
 
-  auto next_utc_start_sec = std::max(curr_utc_sec, target_utc_sec_);
+  auto next_utc_start_sec = std::max(curr_utc_sec, fired_utc_sec_);
 
-  //! Q: 为什么要用curr_utc_sec与target_utc_sec_中最大值来算下一轮的时间点？
+  //! Q: 为什么要用curr_utc_sec与fired_utc_sec_中最大值来算下一轮的时间点？
   //! A: 因为在实践中存在steady_clock比system_clock快的现象，会导致重复触发定时任务的问题。
   //!    比如：定的时间为每天10:00:00.000触发，结果定时任务在09:59:59.995就触发了。如果下
   //!    一轮的时间计算是从09:59:59:995计算，它会发现下一次的触发时间点在5ms之后。于是5ms
   //!    之后就再次触发一次。
   //!    解决办法就是：除了第一次按当前的时间算外，后面的如果出现提前触发的，按期望的算。
   //!    就如上面的例子，就算是提前触发了，后面的按10:00:00.000计算。从而避免重复触发问题
+  //!    注意：只能用已经触发了的时间点(fired_utc_sec_)，不能用 target_utc_sec_。后者在 disable() 之后
+  //!    还留着一个没触发的时间点，再 enable() 时就会把它跳过去，直接排到下一轮
 
   uint32_t next_local_start_sec = next_utc_start_sec + timezone_offset_seconds;
   uint32_t next_local_sec = 0;
@@ -220,6 +224,7 @@ void Alarm::onTimeExpired() {
   LogTrace("time expired, target_utc_sec:%u", target_utc_sec_);
 #endif
 
+  fired_utc_sec_ = target_utc_sec_;
   state_ = State::kInited;
   activeTimer();
 
